@@ -7,6 +7,10 @@ from .run import run_verus, analyse, collect_lemma_tags, Undecided, BUILD, tags_
 name = sys.argv[1]
 tmpl = os.path.join(ROOT, 'units', name + '.vrs')
 u0 = assemble(tmpl, os.path.join(BUILD, name + '.rs'))
+collect_lemma_tags(u0)
+# obligations that already fail on the unmutated unit (recorded findings, the canary) do not count as kills
+_js, _di, _w, _c, _ = run_verus(name + '_base', os.path.join(BUILD, name + '.rs'), threads=8, log_air=False)
+BASE = set((x['label'] or x['msg']) for x in analyse(u0, _js, _di).failures)
 def run(m):
     out = os.path.join(BUILD, '%s_mut_%s.rs' % (name, m['name']))
     try:
@@ -21,7 +25,7 @@ def run(m):
     r = analyse(u, js, di)
     if r.hard:
         return (m['name'], 'REJECTED: ' + r.hard[0][:400])
-    killed = sorted(set((x['label'] or x['msg']) for x in r.failures if x['fn'] != 'canary__'))
+    killed = sorted(set((x['label'] or x['msg']) for x in r.failures if x['fn'] != 'canary__') - BASE)
     os.remove(out)
     return (m['name'], ('killed by ' + ', '.join(killed[:5])) if killed else 'SURVIVED')
 with ThreadPoolExecutor(max_workers=8) as ex:
